@@ -128,7 +128,10 @@ var c14attrRe = regexp.MustCompile(`\s([A-Za-z:]+)="([^"]*)"`)
 var c14textRe = regexp.MustCompile(`>([^<>]+)</(v|f|t|definedName|formula1)>`)
 var c14elemRe = regexp.MustCompile(`<([A-Za-z:]+)(\s[^<>]*)?/>|<([A-Za-z:]+)(\s[^<>]*)?>[^<>]*</([A-Za-z:]+)>`)
 
-var c14boundary = []string{"", "0", "-1", "1", "2147483648", "99999999999", "18446744073709551616", "1e309", "NaN", "A0", "XFE1048577", "A1:", "$", "&lt;", "true", strings.Repeat("9", 40)}
+var c14cellRe = regexp.MustCompile(`<c r="([^"]*)"`)
+var c14cellRefs = []string{"ZZZZZZZZZZZZZZ1", "AAAAAAAAAAAAAAAAAAAAAAAA7", "A18446744073709551617", "XFE1", "A0", "1A", "A-1", ""}
+
+var c14boundary = []string{"", "0", "-1", "1", "2147483648", "99999999999", "18446744073709551616", "1e309", "NaN", "A0", "XFE1048577", "A1:", "$", "&lt;", "true", strings.Repeat("9", 40), "ZZZZZZZZZZZZZZ1", "AAAAAAAAAAAAAAAAAAAAAAAA7", "A18446744073709551617", "ZZZZ1:ZZZZZZZZZZZZZZZZ2"}
 
 // applies a mutant to the base package; ok=false when the mutant does not exist (index beyond the space)
 func c14Apply(base []byte, m c14mutant) ([]byte, bool) {
@@ -183,6 +186,13 @@ func c14Apply(base []byte, m c14mutant) ([]byte, bool) {
 		}
 		l := locs[m.At]
 		es[idx].data = append(append(append([]byte{}, d[:l[4]]...), []byte(m.Val)...), d[l[5]:]...)
+	case "cellref":
+		locs := c14cellRe.FindAllSubmatchIndex(d, -1)
+		if m.At >= len(locs) {
+			return nil, false
+		}
+		l := locs[m.At]
+		es[idx].data = append(append(append([]byte{}, d[:l[2]]...), []byte(m.Val)...), d[l[3]:]...)
 	case "attr-remove":
 		locs := c14attrRe.FindAllSubmatchIndex(d, -1)
 		if m.At >= len(locs) {
@@ -254,6 +264,15 @@ func c14Space(name string, base []byte, stride int) []c14mutant {
 		interesting := strings.Contains(e.name, "sheet") || strings.Contains(e.name, "workbook") || strings.Contains(e.name, "styles") || strings.Contains(e.name, "sharedStrings") || strings.Contains(e.name, "Content_Types") || strings.Contains(e.name, "rels") || strings.Contains(e.name, "table") || strings.Contains(e.name, "comments")
 		if !interesting {
 			continue
+		}
+		// every cell reference x hostile references (never thinned: a cell's position in its row matters)
+		if strings.Contains(e.name, "worksheets/sheet") {
+			nCells := len(c14cellRe.FindAllIndex(e.data, -1))
+			for a := 0; a < nCells; a++ {
+				for _, v := range c14cellRefs {
+					out = append(out, c14mutant{Base: name, Kind: "cellref", Part: e.name, At: a, Val: v})
+				}
+			}
 		}
 		nAttr := len(c14attrRe.FindAllIndex(e.data, -1))
 		for a := 0; a < nAttr; a += stride {
@@ -654,7 +673,7 @@ func (c *Ctx) c14CheckSheet(n int) {
 }
 
 func runC14(c *Ctx) {
-	c.R.Rule = "three base packages (feature-rich workbook, its password-protected form, stream-written workbook); mutation space enumerated, thinned by a stride in the quick tier: zip/compound-file level (bit flips at regular offsets, cuts, garbage), per part removal/emptying/duplication/renaming, truncation at 24 points, every attribute x 16 boundary values and removal, every v/f/t text x boundary values, removal and duplication of every leaf element; each mutant through a battery (open, list, rows three ways, cell value/style/formula/calc/rich text/hyperlink on 7 cells, merges, comments, tables, validations, conditional formats, dimension, widths, properties, search, a write, a row insert, defined names, save, close) in isolated workers with a 6 GiB address-space cap and a 20 s watchdog; panics are recovered per call and keyed by call + message. non-trivial = all"
+	c.R.Rule = "three base packages (feature-rich workbook, its password-protected form, stream-written workbook); mutation space enumerated, thinned by a stride in the quick tier: zip/compound-file level (bit flips at regular offsets, cuts, garbage), per part removal/emptying/duplication/renaming, truncation at 24 points, every attribute x 20 boundary values (numbers around 2^31, 2^64, 10^11, 1e309, cell references with 14 and more letters or 20-digit rows) and removal, every cell reference x 8 hostile references (not thinned), every v/f/t text x boundary values, removal and duplication of every leaf element; each mutant through a battery (open, list, rows three ways, cell value/style/formula/calc/rich text/hyperlink on 7 cells, merges, comments, tables, validations, conditional formats, dimension, widths, properties, search, a write, a row insert, defined names, save, close) in isolated workers with a 6 GiB address-space cap and a 20 s watchdog; panics are recovered per call and keyed by call + message. non-trivial = all"
 	n := 400
 	if c.Thorough() {
 		n = 6000
